@@ -121,6 +121,12 @@ class Ctx:
         cls = repo.cls(modname, clsname) if modname else repo.find_class(clsname)
         ctx = repo.find_class(ctx_cls) if ctx_cls else cls
         f = cls.methods.get(meth) if own else ctx.lookup(meth)
+        if f is None and own:
+            # the class no longer defines the method itself but inherits one (e.g. two sibling definitions merged into
+            # the base with a hook): what instances of this class do is still decided, in the context of this class
+            f = cls.lookup(meth)
+            if f is not None and ctx_cls is None:
+                ctx = cls
         if f is None:
             raise AnalysisError('%s: anchor vanished: %s.%s' % (rule, clsname, meth))
         view = view or View()
